@@ -1,9 +1,13 @@
 import OnetVerif.Model.Util
 import OnetVerif.Model.C05Inst
 import OnetVerif.Model.C05Conn
+import OnetVerif.Model.C05Chan
+import OnetVerif.Model.C05Reg
 /-! Model for property C05.  The instance (queue, wake-up token, single reader) is `Model/C05Inst.lean`,
 the way from a connection to the instance's queue (receive loop, dispatchers, overlay hand-over,
-`transmitMux`) is `Model/C05Conn.lean`; this file is the line-protocol front end.  Core-only. -/
+`transmitMux`) is `Model/C05Conn.lean`, an instance that receives one of its types through a bounded channel
+`Model/C05Chan.lean`, the registration of the protocol instance and who starts the reader `Model/C05Reg.lean`;
+this file is the line-protocol front end.  Core-only. -/
 namespace C05
 
 namespace Drv
@@ -11,6 +15,7 @@ namespace Drv
 structure State where
   srv : List (Nat × St) := []
   conn : Conn.St := {}
+  chan : Chan.St := {}
 
 def init : State := {}
 
@@ -99,6 +104,67 @@ def cstep (s : State) (toks : List String) : Option (State × String) :=
   | ["cstate"] => some (s, cstates s.conn)
   | _ => none
 
+def showCh (t : Chan.St) : String :=
+  let pc := match t.pc with
+    | .handling m => s!"in:{m}"
+    | _ => "idle"
+  s!"{pc} len={t.chan.length}"
+
+/-- the reader of the channel instance runs until it is inside a handler or has nothing to do (two steps
+per queued channel message) -/
+def chsettle (t : Chan.St) : Chan.St := Chan.settle (2 * t.queue.length + 8) t
+
+/-- the channel class (one instance whose type-4 messages go to a channel of `cap` places and whose type-3
+messages have a gated handler): `chstart <cap>`; `chsend <m>` (a channel message is handed over) and `chacc <m>`
+(a handler message), `chexit` (the running handler returns), `chclose`, `chwait <ms>` (time passes) — answer:
+what the instance is doing and how many messages sit in the channel once the reader has nothing more to do;
+`chread` (the protocol takes one message from its channel if there is one: `got:<m>` / `empty`); `chdrain`
+(it takes all of them: `rest:<m,…>`). -/
+def chstep (s : State) (toks : List String) : Option (State × String) :=
+  let fin (t : Chan.St) : Option (State × String) := some ({ s with chan := t }, showCh t)
+  match toks with
+  | ["chstart", c] =>
+    match c.toNat? with
+    | some c => if c = 0 then some (s, "bad-op") else some ({ s with chan := { cap := c } }, "ok")
+    | none => some (s, "bad-op")
+  | ["chsend", m] =>
+    match m.toNat? with
+    | some m => match Chan.step s.chan (.accept true m) with
+      | some t => fin (chsettle t)
+      | none => some (s, "blocked")
+    | none => some (s, "bad-op")
+  | ["chacc", m] =>
+    match m.toNat? with
+    | some m => match Chan.step s.chan (.accept false m) with
+      | some t => fin (chsettle t)
+      | none => some (s, "blocked")
+    | none => some (s, "bad-op")
+  | ["chexit"] =>
+    match s.chan.pc with
+    | .handling _ => match Chan.step s.chan .reader with
+      | some t => fin (chsettle t)
+      | none => some (s, "blocked")
+    | _ => some (s, "no-handler")
+  | ["chclose"] =>
+    match Chan.step s.chan .close with
+    | some t => fin (chsettle t)
+    | none => some (s, "blocked")
+  | ["chwait", ms] =>
+    match ms.toNat? with
+    | some _ => fin (chsettle s.chan)
+    | none => some (s, "bad-op")
+  | ["chread"] =>
+    match s.chan.chan with
+    | m :: _ => match Chan.step s.chan .take with
+      | some t => some ({ s with chan := t }, s!"got:{m}")
+      | none => some (s, "blocked")
+    | [] => some (s, "empty")
+  | ["chdrain"] =>
+    let t := Chan.run s.chan (s.chan.chan.map fun _ => .take)
+    some ({ s with chan := t }, "rest:" ++ Util.showNatList s.chan.chan)
+  | _ => none
+
+
 /-- `accept <inst> <m>`: hand message m over; `exit <inst>`: the running handler returns; `close
 <inst>`.  After each, the reader runs until it is inside a handler or has nothing to do; the reply
 is what the instance is doing then: `in:<m>`, `idle` or `stopped`. -/
@@ -106,7 +172,19 @@ def step (s : State) (toks : List String) : State × String :=
   match cstep s toks with
   | some r => r
   | none =>
+  match chstep s toks with
+  | some r => r
+  | none =>
   match toks with
+  -- the protocol instance of `i` is registered once more (`Overlay.RegisterProtocolInstance` with the instance the
+  -- node is bound to): refused, nothing changes; after `close` the node is no longer listed
+  | ["rereg", i] =>
+    match i.toNat? with
+    | some i =>
+      match s.srv.lookup i with
+      | some t => (s, (Reg.register { core := t, bound := true }).2.show)
+      | none => (s, "no-instance")
+    | none => (s, "bad-op")
   | ["accept", i, m] =>
     match i.toNat?, m.toNat? with
     | some i, some m =>
